@@ -43,8 +43,14 @@ def probe (form : String) (e a rel : Bytes) (valKind : String) (val : Bytes) (re
       (if [38, 108, 116, 59].isPrefixOf out then "pass" else "fail:action-in-tag-name-accepted")
     else
       -- a void element has no content: what follows its start tag is content of the enclosing (here: no) element
+      -- "selfclose": `<e/>{{.}}</e>` — the solidus does not close a non-void HTML element (it does for the foreign
+      -- roots svg / math, whose content then is top-level content); "cond-glued": the attribute `a` follows a
+      -- conditional valueless attribute, its name glued to {{end}}
+      let foreign := lowerB e == B "svg" || lowerB e == B "math"
       let verdict := if form == "content" then
           (if htmlVoid.contains (lowerB e) then reviewedContent [] else reviewedContent (lowerB e))
+        else if form == "selfclose" || form == "selfclose-attr" then
+          (if htmlVoid.contains (lowerB e) || foreign then reviewedContent [] else reviewedContent (lowerB e))
         else reviewedAttr (lowerB e) (lowerB a) (lowerB rel)
       match verdict with
       | none => "fail:accepted-where-reviewed-policy-refuses"
